@@ -313,10 +313,15 @@ extern "C" void vp_enum(int tier, uint64_t seed, uint32_t shard, uint32_t nshard
 // binary32: every bit pattern (thorough) or a stride-by-prime subset (quick), every function, nearbyint/rint in all four modes
 template<class V> static void sweep32(unsigned t, uint64_t seed, int tier, uint32_t shard, uint32_t nshards, void (*emit)(const VpCase*, void*), void* ctx, uint64_t* evals, uint64_t* lanes) {
     const unsigned W = V::width;
-    const uint64_t stride = tier ? 1 : 1031;
+#if defined(AVEL_SSE2)
+    if (W == 1 && tier) return;      // thorough: the width-1 type is scalar code, identical in every build: swept completely in the build without macros only
+#endif
     for (unsigned f = 0; f < F_COUNT; ++f)
         for (int mode = 0; mode < 4; ++mode) {
             if (!tier && f < F_NEARBYINT && mode != 0 && mode != (int)((seed + f) % 3) + 1) continue;   // quick: ceil/floor/trunc/round swept in nearest + one directed mode
+            // thorough: every bit pattern for each function in round-to-nearest and for nearbyint / rint in every mode; ceil/floor/trunc/round
+            // (which do not depend on the mode) under the directed modes with a stride of 251
+            const uint64_t stride = tier ? ((mode == 0 || f >= F_NEARBYINT) ? 1 : 251) : 1031;
             VpCase c; std::memset(&c, 0, sizeof c); c.target = t; c.op = f; c.s[0] = mode;
             bool failed = false;
             for (uint64_t base = ((seed * 7 + f) % stride) + (uint64_t)shard * W * stride; base < (1ull << 32) && !failed; base += (uint64_t)nshards * W * stride) {
@@ -333,6 +338,6 @@ extern "C" void vp_sweep(int tier, uint64_t seed, uint32_t shard, uint32_t nshar
 #define X(n) if (sizeof(avel::n::scalar) == 4) sweep32<avel::n>(T_##n, seed, tier, shard, nshards, emit, ctx, evals, lanes);
     VP_FLT_VECS(X)
 #undef X
-    if (tier) std::snprintf(d, cap, "all 2^32 binary32 bit patterns for ceil/floor/trunc/round and for nearbyint/rint under each of the four rounding modes, every float vector width");
+    if (tier) std::snprintf(d, cap, "all 2^32 binary32 bit patterns for ceil/floor/trunc/round in round-to-nearest and for nearbyint/rint under each of the four rounding modes (ceil/floor/trunc/round under the directed modes: every 251st pattern), every float vector width");
     else d[0] = 0;
 }
